@@ -5,3 +5,6 @@ import Skv.Props.C14
 #print axioms C14_cleanup_keeps_needed
 #print axioms C14_witness_stale_block
 #print axioms C14_witness_late_cleanup
+#print axioms C14_history_after_restore
+#print axioms C14_checkpoint_dir_history
+#print axioms fixed_restore_kept_the_discarded_index
